@@ -593,7 +593,13 @@ pub fn gen_site_coord(rng: &mut Rng) -> f64 {
 }
 
 pub fn gen_site(rng: &mut Rng) -> (Vec<[f64; 9]>, f64, f64, f64) {
-    let ops = group_mats(*rng.pick(&GROUPS));
+    let mut ops = group_mats(*rng.pick(&GROUPS));
+    // a site's operation list is data (public, read from JSON): the listed order need not start with
+    // the identity
+    if ops.len() >= 2 && rng.below(4) == 0 {
+        let k = 1 + rng.usize(ops.len() - 1);
+        ops.rotate_left(k);
+    }
     let a = match rng.below(6) {
         0 => 0.0,
         1 => 2.0 * std::f64::consts::PI,
